@@ -191,10 +191,55 @@ def refine_signature(sig, t, detail):
                     if isinstance(a, dict): mimes |= set(a.keys())
         if key is not None and key in mimes and key not in (names_b | names_l | names_r):
             return 'collected-diffs-not-wrapped-to-level:inline-attachments'
+    outs_clear_all = False
+    cfg = t.get('cfg')
     if sig == 'merge-raises:TypeError@nbdime/merging/strategies.py:combine_patches' and "'<' not supported between instances of" in msg \
             and ("'int' and 'str'" in msg or "'str' and 'int'" in msg):
         return 'collected-diffs-not-wrapped-to-level:clear-all'
+    if sig == 'merge-raises:TypeError@nbdime/merging/strategies.py:collect_diffs' and msg == "'NoneType' object is not iterable":
+        return 'clear-all-collects-none-diff'
+    if sig == 'merge-raises:ValueError@nbdime/merging/strategies.py:resolve_strategy_inline_recurse':
+        m = re.match(r"^Conflict on unrecognized key: '(.*)'$", msg)
+        if m and m.group(1) == 'attachments' and _both_insert_cells_with_attachments(t):
+            return 'inline-cells-similar-insert-unrecognized-key:attachments'
+    if sig == 'merge-raises:AssertionError@nbdime/merging/strategies.py:resolve_strategy_inline_recurse' and msg == '' and _delete_vs_multi_field_edit(t):
+        return 'parent-deletion-counter-diff-has-empty-patches'
+    if sig == 'merge-raises:RuntimeError@nbdime/diffing/generic.py:diff' and msg.startswith('Can currently only diff list, dict, or str objects') \
+            and _has_noncontainer_split_json_mime(t):
+        return 'diff-raises-on-non-container-json-mime-value'
     return sig
+
+
+def _cells(nb): return nb.get('cells', [])
+
+
+def _both_insert_cells_with_attachments(t):
+    base_att = [json.dumps(c.get('attachments'), sort_keys=True) for c in _cells(t['b'])]
+    def new_att(nb):
+        return [c for c in _cells(nb) if c.get('attachments') and json.dumps(c.get('attachments'), sort_keys=True) not in base_att]
+    return bool(new_att(t['l'])) and bool(new_att(t['r']))
+
+
+def _delete_vs_multi_field_edit(t):
+    """one side removed a base cell; the other side changed the source AND something else of a base cell"""
+    nb = len(_cells(t['b']))
+    for d, e in (('l', 'r'), ('r', 'l')):
+        if len(_cells(t[d])) >= nb: continue
+        for cb in _cells(t['b']):
+            for ce in _cells(t[e]):
+                if ce.get('cell_type') != cb.get('cell_type') or ce.get('source') == cb.get('source'): continue
+                if any(ce.get(k) != cb.get(k) for k in ('outputs', 'metadata', 'execution_count', 'attachments')):
+                    return True
+    return False
+
+
+def _has_noncontainer_split_json_mime(t):
+    for k in 'blr':
+        for c in _cells(t[k]):
+            for o in c.get('outputs', []):
+                for mt, v in (o.get('data') or {}).items():
+                    if mt.lower().startswith('application/json') and not isinstance(v, (list, dict, str)): return True
+    return False
 
 
 def shrink_triple(sb, t, cfg, mode, sig, budget=40):
